@@ -92,3 +92,53 @@ theorem read_back_of_nodup (es : List (Str × Str)) (d : List (Str × Str)) (hnd
 
 end BulkNames
 end Radicale
+
+namespace Radicale
+namespace BulkNames
+open Str Path
+
+/-- a random source that keeps its contract exists (non-vacuity of `FreshOk`): a name longer than everything present -/
+def freshLong (taken : List Str) : Str := List.replicate (1 + (taken.map List.length).sum) 'r'
+
+theorem length_le_sum (taken : List Str) (x : Str) (hx : x ∈ taken) : x.length ≤ (taken.map List.length).sum := by
+  induction taken with
+  | nil => cases hx
+  | cons a t ih =>
+    simp only [List.map_cons, List.sum_cons]
+    rcases List.mem_cons.1 hx with rfl | h
+    · omega
+    · have := ih h; omega
+
+theorem freshLong_not_mem (taken : List Str) : freshLong taken ∉ taken := by
+  intro h
+  have := length_le_sum taken _ h
+  simp only [freshLong, List.length_replicate] at this
+  omega
+
+theorem freshLong_safe (taken : List Str) : safeFsComp (freshLong taken) = true := by
+  have hne : freshLong taken = 'r' :: List.replicate ((taken.map List.length).sum) 'r' := by
+    simp [freshLong, Nat.add_comm, List.replicate_succ]
+  have hall : ∀ c ∈ freshLong taken, c = 'r' := fun c hc => (List.mem_replicate.1 hc).2
+  have hlast : (freshLong taken).getLast? ≠ some '~' := by
+    intro h
+    have := List.mem_of_getLast? h
+    have := hall _ this
+    exact absurd this (by decide)
+  have hcontains : (freshLong taken).contains '/' = false := by
+    rw [Bool.eq_false_iff]
+    intro h
+    have := hall '/' (List.contains_iff_mem.1 h)
+    exact absurd this (by decide)
+  have h1 : freshLong taken ≠ ['.'] := by rw [hne]; intro h; injection h with h _; exact absurd h (by decide)
+  have h2 : freshLong taken ≠ ['.', '.'] := by rw [hne]; intro h; injection h with h _; exact absurd h (by decide)
+  have h0 : freshLong taken ≠ [] := by rw [hne]; simp
+  have hhead : (freshLong taken).head? ≠ some '.' := by rw [hne]; simp
+  have hnm : '/' ∉ freshLong taken := fun hm => absurd (hall '/' hm) (by decide)
+  simp [safeFsComp, h0, hnm, h1, h2, hhead, hlast]
+
+theorem freshOk_exists (suffix : Str) (hash : Str → Str) : FreshOk ⟨suffix, hash, freshLong⟩ := by
+  intro taken
+  exact (free_iff _ _).2 ⟨freshLong_safe taken, freshLong_not_mem taken⟩
+
+end BulkNames
+end Radicale
